@@ -122,6 +122,9 @@ def configs(t):
         # never spawning: the request is not even acknowledged
         out.append(base(f'start-mute-{secs}s', [A], secs=secs, steps=2, mute=[[0, 'A:a', 'start'], [1, 'A:a', 'start']],
                         triggers=[['rpc', 1, 'start_application', ['LESS_LOADED', 'A', False]]], T=3))
+        # the same with the requester as the target (the forced event comes back into the very loop that gave up)
+        out.append(base(f'start-mute-local-{secs}s', [A], secs=secs, steps=2, mute=[[0, 'A:a', 'start'], [0, 'A:b', 'start']],
+                        triggers=[['rpc', 0, 'start_application', ['CONFIG', 'A', False]]], T=3))
         # stop: stuck in STOPPING / never acknowledged
         out.append(base(f'stop-stuck-{secs}s', [A], secs=secs, steps=2,
                         setup=[['rpc', 0, 'start_application', ['LESS_LOADED', 'A', False]]],
@@ -146,6 +149,13 @@ def configs(t):
     out.append(base('stop-target-lost', [A1], steps=2, setup=[['rpc', 0, 'start_application', ['LESS_LOADED', 'A', False]]],
                     triggers=[['rpc', 0, 'stop_application', ['A', False]]], behaviours=['stopped'],
                     F=1, faults=['crash'], crashable=[1], nicks=['aa', 'zz'], T=3, cost=5))
+    # SINGLE_INSTANCE / SINGLE_NODE: the instance chosen for the whole application is lost during the first sub-sequence
+    for dist in ('SINGLE_INSTANCE', 'SINGLE_NODE'):
+        out.append(base(f'start-{dist}-target-lost',
+                        [app('A', 0, [prog('a', 1), prog('b', 2), prog('c', 3)], 'CONTINUE', distribution=dist,
+                             identifiers='10.0.0.2:25001')],
+                        steps=3, triggers=[['rpc', 0, 'start_application', ['CONFIG', 'A', False]]], behaviours=['run'],
+                        F=1, faults=['crash'], crashable=[1], nicks=['aa', 'zz'], T=3, cost=5))
     # several commands of one sequence pending on the lost instance
     A2x = app('A', 0, [prog('a', 1, identifiers='10.0.0.2:25001'), prog('b', 1, identifiers='10.0.0.2:25001'),
                        prog('c', 1, identifiers='10.0.0.2:25001'), prog('e', 2)], 'CONTINUE')
